@@ -334,3 +334,81 @@ Proof. exact c12_result_hypotheses_satisfiable. Qed.
 (* keys_distinct on a string-keyed argument (the input of an object) *)
 Example C12_keys_distinct_example : keys_distinct no_units ex12_v1.
 Proof. exact c12_keys_distinct_ex_obj. Qed.
+
+(* ====================================================================================================
+   C12_history_free with BOTH kinds of lazily filled cache as state (appended; supersedes the "partial"
+   above for the history clause): the decoded property defaults (ObjectSchema.defaultValues) AND the
+   unit caches (UnitsDefinition.reCache / sortedMultipliersCache).  Model: Proofs/C13Cache.v —
+   `vcache` is the table of filled cells (key: KRe u | KSorted u | KJson text), `op_st` the
+   state-passing form of one call: the result is evaluated THROUGH the cache (Schema/OpsC.v: the integer
+   unit parser, the float unit parser `puw` and the JSON oracle all read the compiled expression / sorted
+   multipliers / decoded default from the cache when present and compute them when absent), the new cache
+   is the old one plus the cells `touched k` of the call, each filled with the computed value.
+   `touched` is ANY function call -> cells: the theorem covers the lazy toucher of the code
+   (C13Cache.touched_lazy: exactly the cells of the primitive uses the operation makes,
+   Schema/FootprintOps.v), the eager one of C12History (every key of the schema), and everything between.
+   `pu0 puw u` is UnitsDefinition.ParseFloat written as a function of the two cached parts
+   (FloatUnits.parse_units_float = pu0 parse_units_float_with, by reflexivity). *)
+From Verif Require Import Schema.FloatUnits Schema.OpsC ATP.Footprint Schema.FootprintOps Proofs.C13Cache.
+
+(* for every history of calls (failing calls included), from every coherent cache: the results are the
+   pure function's, the cache stays coherent (every cell holds the value computed from its key, i.e. from
+   the schema), and nothing filled is ever overwritten *)
+Theorem C12_history_free : forall words puw touched f e s (h : list call) (c0 : vcache),
+  vcoherent (e_or e) c0 ->
+  fst (run_history_v words puw touched f e s c0 h) = map (run words (pu0 puw) f e s) h /\
+  vcoherent (e_or e) (snd (run_history_v words puw touched f e s c0 h)) /\
+  (forall k v, vlookup k c0 = Some v -> vlookup k (snd (run_history_v words puw touched f e s c0 h)) = Some v).
+Proof. exact history_free_v. Qed.
+Print Assumptions C12_history_free.
+
+(* the final cache is a function of the schema: what a cell holds after a history does not depend on the
+   history, the toucher or the (coherent) cache it started from — two runs agree on every cell both filled,
+   and the value is `vcompute` of the key (units_re / sorted_mults of the definition, o_json of the text) *)
+Theorem C12_cache_cells_function_of_schema :
+  forall words puw touched touched' f e s (h h' : list call) c0 c0' k v v',
+  vcoherent (e_or e) c0 -> vcoherent (e_or e) c0' ->
+  vlookup k (snd (run_history_v words puw touched f e s c0 h)) = Some v ->
+  vlookup k (snd (run_history_v words puw touched' f e s c0' h')) = Some v' ->
+  v = v' /\ v = vcompute (e_or e) k.
+Proof. exact history_cells_function_of_key. Qed.
+Print Assumptions C12_cache_cells_function_of_schema.
+
+(* ... and with the eager toucher (every call decodes / compiles every key the schema and the tables it can
+   reach declare — C12History's `step`, now with the unit caches) the cache after ANY non-empty history is
+   literally one table, a function of (environment, schema) alone *)
+Theorem C12_state_is_function_of_schema_all_caches : forall words puw f e s (h : list call) c0, h <> [] ->
+  snd (run_history_v words puw (fun _ => schema_keys e s) f e s c0 h) = vfill (e_or e) c0 (schema_keys e s).
+Proof. intros words puw f e s h c0. exact (history_eager_v words puw (schema_keys e s) f e s h c0). Qed.
+Print Assumptions C12_state_is_function_of_schema_all_caches.
+
+(* ---------- non-vacuity: units on the integer and on the float path, a default, a failing call ---------- *)
+Definition ex12u_units : units :=
+  mkUnits (mkUnit "B" "B" "byte" "bytes") [(1024%Z, mkUnit "kB" "kB" "kilobyte" "kilobytes")].
+Definition ex12u_obj : schema :=
+  SObject "O" false [("n", ex12_prop (SInt (Some 0%Z) None (Some ex12u_units)) (Some "5"));
+                     ("x", ex12_prop (SFloat None None (Some ex12u_units)) None)].
+Definition ex12u_history : list call :=
+  [CUnser (VMap t_any_map false [(vstr "n", vstr "2kB")]);                    (* x absent: decodes the defaults; compiles the expression, sorts the multipliers *)
+   CUnser (VMap t_any_map false [(vstr "x", vstr "1kB 1B")]);                 (* float path; n absent: its default 5 is used *)
+   CUnser (VMap t_any_map false [(vstr "n", vstr "2 parsecs")]);              (* fails *)
+   CUnser (VMap t_any_map false [(vstr "n", vstr "2kB")])].
+Definition ex12u_touched : call -> list ckey :=
+  touched_lazy [] parse_units_float_with 20 0%N (nenv0 ex12_env ex12u_obj) ex12_env ex12u_obj.
+
+Example C12_history_all_caches_example :
+  vcoherent (e_or ex12_env) [] /\
+  (* the lazy toucher fills everything in the first call: x is absent, so GetDefaults decodes the object's
+     default texts; then n's string compiles the expression and sorts the multipliers (newest entry first) *)
+  map fst (snd (run_history_v [] parse_units_float_with ex12u_touched 20 ex12_env ex12u_obj [] ex12u_history))
+    = [KSorted ex12u_units; KRe ex12u_units; KJson "5"] /\
+  (* the results are those of the pure function, the third call fails, the first and last agree *)
+  fst (run_history_v [] parse_units_float_with ex12u_touched 20 ex12_env ex12u_obj [] ex12u_history)
+    = map (run [] parse_units_float 20 ex12_env ex12u_obj) ex12u_history /\
+  map (fun r => match r with RUnser o => is_ok o | RValidate o => is_ok o | RSerialize o => is_ok o | RCompat o => is_ok o end)
+      (fst (run_history_v [] parse_units_float_with ex12u_touched 20 ex12_env ex12u_obj [] ex12u_history)) = [true; true; false; true] /\
+  (* the eager toucher's table is the same set of cells *)
+  schema_keys ex12_env ex12u_obj = [KJson "5"; KRe ex12u_units; KSorted ex12u_units; KRe ex12u_units; KSorted ex12u_units].
+Proof.
+  split; [apply vcoherent_nil|]. repeat split; vm_compute; reflexivity.
+Qed.
